@@ -3,9 +3,11 @@ package c17
 import (
 	"encoding/json"
 	"fmt"
+	"github.com/go-kid/ioc/configure"
 	"github.com/go-kid/ioc/configure/binder"
 	"math"
 	"os"
+	"path/filepath"
 	"reflect"
 	"strconv"
 	"strings"
@@ -1202,5 +1204,94 @@ func TestArgsValues(t *testing.T) {
 			t.Fatalf("C17: %s: bound prefix=%q value=%q prop=%q other=%q n=%d", desc, obj.P, obj.V, obj.Q, obj.O, obj.N)
 		}
 		kit.Rec.Case(desc, strings.Contains(v, "="), "args-loader-value")
+	})
+}
+
+// ---- a Configure that was initialised before the App gets it --------------------------------------------------------
+
+// TestPreInitializedConfigure: the application reads its profile from a Configure it initialises itself, then hands
+// that Configure to the App together with one more source (a file chosen by the profile). What the file configures
+// reaches the fields exactly like what the first source configured.
+type PreInit struct {
+	Base  string   `prefix:"c17p.base"`
+	BaseV string   `value:"${c17p.base}"`
+	Zip   string   `prefix:"c17p.zip"`
+	ZipV  string   `value:"${c17p.zip}"`
+	ZipQ  string   `prop:"c17p.zip"`
+	Port  int      `prefix:"c17p.port"`
+	PortV int      `value:"${c17p.port}"`
+	List  []string `prefix:"c17p.list"`
+	ListV []string `value:"${c17p.list}"`
+	Whole struct {
+		Base string   `yaml:"base"`
+		Zip  string   `yaml:"zip"`
+		Port int      `yaml:"port"`
+		List []string `yaml:"list"`
+	} `prefix:"c17p"`
+}
+
+func TestPreInitializedConfigure(t *testing.T) {
+	kit.Rec.Rule(rule)
+	rapid.Check(t, func(t *rapid.T) {
+		base := rapid.StringMatching(`[a-z]{1,6}`).Draw(t, "base")
+		zip := rapid.SampledFrom([]string{"007", "00501", "1.50", "true", "x y", "0x10"}).Draw(t, "zip")
+		port := rapid.IntRange(1, 65535).Draw(t, "port")
+		list := rapid.SliceOfN(rapid.SampledFrom([]string{"blue", "42", "a b", "007"}), 1, 3).Draw(t, "list")
+		first, _ := yaml.Marshal(map[string]any{"c17p": map[string]any{"base": base, "profile": "p1"}})
+		second, _ := yaml.Marshal(map[string]any{"c17p": map[string]any{"zip": zip, "port": port, "list": list}})
+		dir, err := os.MkdirTemp("", "c17p-")
+		if err != nil {
+			t.Skip("no temp dir")
+		}
+		defer os.RemoveAll(dir)
+		file := filepath.Join(dir, "config-p1.yaml")
+		if err := os.WriteFile(file, second, 0o644); err != nil {
+			t.Skip("cannot write")
+		}
+		cfg := configure.NewConfigure()
+		cfg.SetBinder(binder.NewViperBinder("yaml"))
+		cfg.AddLoaders(loader.NewRawLoader(first))
+		early := rapid.Bool().Draw(t, "early")
+		if early {
+			if err := cfg.Initialize(); err != nil {
+				t.Fatalf("C17: Initialize: %v", err)
+			}
+			if got := cfg.Get("c17p.profile"); got != "p1" {
+				t.Fatalf("C17: profile read before the start is %v", got)
+			}
+		}
+		viaOption := rapid.Bool().Draw(t, "viaoption")
+		c := &PreInit{}
+		ops := []app.SettingOption{app.SetConfigure(cfg)}
+		if viaOption {
+			ops = append(ops, app.SetConfig(file))
+		} else {
+			cfg.AddLoaders(loader.NewFileLoader(file))
+		}
+		out := kit.RunApp(append(ops, app.SetComponents(c))...)
+		desc := fmt.Sprintf("first source %q (initialised before the start: %v), then file %q (added through the App option: %v)", first, early, second, viaOption)
+		if !out.OK() {
+			t.Fatalf("C17: start failed: %v\n%s", out, desc)
+		}
+		for _, x := range []struct {
+			what      string
+			got, want any
+		}{
+			{`prefix:"c17p.base"`, c.Base, base}, {`value:"${c17p.base}"`, c.BaseV, base},
+			{`prefix:"c17p.zip"`, c.Zip, zip}, {`value:"${c17p.zip}"`, c.ZipV, zip}, {`prop:"c17p.zip"`, c.ZipQ, zip},
+			{`prefix:"c17p.port"`, c.Port, port}, {`value:"${c17p.port}"`, c.PortV, port},
+			{`prefix:"c17p.list"`, c.List, list}, {`value:"${c17p.list}"`, c.ListV, list},
+			{`prefix:"c17p" member base`, c.Whole.Base, base}, {`prefix:"c17p" member zip`, c.Whole.Zip, zip},
+			{`prefix:"c17p" member port`, c.Whole.Port, port}, {`prefix:"c17p" member list`, c.Whole.List, list},
+		} {
+			if !reflect.DeepEqual(x.got, x.want) {
+				t.Fatalf("C17: field %s holds %#v, configured is %#v\n%s", x.what, x.got, x.want, desc)
+			}
+		}
+		var labels []string
+		if early {
+			labels = append(labels, "configure-initialised-before-the-start")
+		}
+		kit.Rec.Case(desc, early, labels...)
 	})
 }
